@@ -156,6 +156,7 @@ struct Agg {
     stale_task_wakes: u64,
     per_subject: BTreeMap<String, u64>,
     per_workload: BTreeMap<String, u64>,
+    per_shape: BTreeMap<String, u64>,
     incidental: BTreeMap<String, u64>,
     /// (property, oracle, subject) -> (count, first (seed, run index, workload, sweep_k))
     found: BTreeMap<(String, String, String), (u64, u64, u64, Workload, Option<usize>, String)>,
@@ -193,6 +194,9 @@ impl Agg {
         self.stale_task_wakes += o.stale_task_wakes;
         for (k, v) in o.per_subject {
             *self.per_subject.entry(k).or_default() += v;
+        }
+        for (k, v) in o.per_shape {
+            *self.per_shape.entry(k).or_default() += v;
         }
         for (k, v) in o.per_workload {
             *self.per_workload.entry(k).or_default() += v;
@@ -247,6 +251,19 @@ impl Agg {
         self.stale_task_wakes += r.stale_task_wakes;
         *self.per_subject.entry(cfg.subject.name().to_string()).or_default() += 1;
         *self.per_workload.entry(format!("{:?}", wl)).or_default() += 1;
+        let shape = if cfg.shape & 8 != 0 {
+            "future of 4200 bytes"
+        } else if cfg.shape & 4 != 0 {
+            "zero-sized output with destructor"
+        } else {
+            match cfg.shape & 3 {
+                0 => "future and output with drop glue",
+                1 => "future without drop glue",
+                2 => "output without drop glue",
+                _ => "neither with drop glue",
+            }
+        };
+        *self.per_shape.entry(shape.to_string()).or_default() += 1;
         let mut seen_keys: Vec<(String, String, String)> = vec![];
         for v in &r.violations {
             if counts_for(prop, v, cfg.subject) {
@@ -636,6 +653,7 @@ fn cmd_check(args: &[String]) -> i32 {
         "runs_aborted_on_fatal_violation": agg.aborted,
         "runs_per_subject": agg.per_subject,
         "runs_per_workload": agg.per_workload,
+        "runs_per_type_shape": agg.per_shape,
         "incidental_violations_of_other_properties": agg.incidental,
         "violations": viol_json,
         "violations_unlisted": violations,
